@@ -248,6 +248,11 @@ func cmdCheck(args []string) int {
 				// all of them are obligations of the sweep as well
 				supporting = !(ob.Detached && !hasTag(ob.Tags, "C17"))
 			}
+			if *prop == "C07" && ob.Kind == "safe" && (strings.Contains(ob.Name, "#index#") || strings.Contains(ob.Name, "#slice")) && fi.Contract != nil && contractHasTag(fi.Contract, "C07") {
+				// an index out of range in a function whose postcondition carries the property (the name list of the variable
+				// generator) is a failed compilation of a well-formed profile
+				supporting = true
+			}
 			if !hasTag(ob.Tags, *prop) && !supporting {
 				continue
 			}
